@@ -46,15 +46,48 @@ Theorem C31_position_is_end_of_file : forall r script expected f resume e f' p' 
 Proof. exact fixed_appends_only. Qed.
 Print Assumptions C31_position_is_end_of_file.
 
-(* with the download cache on: a second call for the same digest after a successful one is served from the cache (hard
-   link, no request, no re-hash); its target is the expected content because the cache entry was made from a verified
-   target. ASSUMES the cached file is not modified between Put and Get (the cache hit itself does not verify). *)
-Theorem C31_cached_target_only_if_match : forall size expected p1 l1 attempts s1 p2 l2 s2,
-  let r := download_twice size expected p1 l1 attempts s1 p2 l2 s2 in
-  (o_err (snd r) = ENone -> o_target (snd r) = Some expected) /\
-  (o_err (snd r) <> ENone -> o_target (snd r) = None).
-Proof. exact cached_target_only_if_match. Qed.
-Print Assumptions C31_cached_target_only_if_match.
+(* an accepted file is the expected content, so it has its size (the declared size whenever that is consistent with the
+   digest), and no byte of a pre-existing partial file from another revision / URL survives in it *)
+Theorem C31_accepted_size_matches : forall size expected partial leave attempts script t,
+  o_err (download size expected partial leave attempts script) = ENone ->
+  o_target (download size expected partial leave attempts script) = Some t ->
+  t = expected /\ length t = length expected /\ (N.of_nat (length expected) = size -> N.of_nat (length t) = size).
+Proof. exact accepted_size_matches. Qed.
+Print Assumptions C31_accepted_size_matches.
+
+(* DELTAS (downloadAndApplyDelta / applyDeltaImpl + fallback to the full download), for every server script (shared by
+   the delta and the full download), every partial file, and EVERY behaviour of xdelta3 (fails, writes any bytes into
+   targetPath.partial, exits 0 without output), wrong format, missing base snap: success => the target is exactly the
+   expected content; failure => no target *)
+Theorem C31_delta_target_only_if_match : forall size expected partial leave attempts d script,
+  outcome_ok expected (download_delta size expected partial leave attempts d script).
+Proof. exact delta_target_only_if_match. Qed.
+Print Assumptions C31_delta_target_only_if_match.
+
+(* DOWNLOAD CACHE, any number of calls on one Store for the same digest, each to its own FREE target path, starting
+   from a cache that is empty or holds the right content: every successful call (real download or cache hit) leaves
+   exactly the expected content, every failing call leaves no target, and the cache never holds anything else.
+   Guards: the target paths are free and nobody modifies the cache file -- a hit verifies nothing (next theorem). *)
+Theorem C31_cache_sequence_only_if_match : forall ks cache size expected attempts,
+  cache_ok expected cache -> Forall (fun k => k_pre k = None) ks ->
+  Forall (outcome_ok expected) (fst (download_seq cache size expected attempts ks)) /\
+  cache_ok expected (snd (download_seq cache size expected attempts ks)).
+Proof. exact cache_sequence_only_if_match. Qed.
+Print Assumptions C31_cache_sequence_only_if_match.
+
+(* why the guards are there (both confirmed on the real code, both outside the property's quantifier): CacheManager.Get
+   treats EEXIST from os.Link as a hit, so a file already at the target path is kept and reported as success; and the
+   cached file is not hashed again, so a modified cache file is handed out *)
+Theorem C31_cache_hit_verifies_nothing_refuted : exists expected garbage size attempts,
+  garbage <> expected /\
+  (let o := fst (download_c (Some expected) size expected attempts
+                   {| k_pre := Some garbage; k_partial := None; k_leave := false; k_script := [] |}) in
+   o_err o = ENone /\ o_target o = Some garbage) /\
+  (let o := fst (download_c (Some garbage) size expected attempts
+                   {| k_pre := None; k_partial := None; k_leave := false; k_script := [] |}) in
+   o_err o = ENone /\ o_target o = Some garbage).
+Proof. exact cache_hit_verifies_nothing. Qed.
+Print Assumptions C31_cache_hit_verifies_nothing_refuted.
 
 (* HISTORICAL, about the code BEFORE commit adc145b (download_before_fix: seek to 0 without truncation when the server
    ignored Range). The full statement was false of it, with a declared and consistent size: finding `stale-tail`,
@@ -98,3 +131,24 @@ Example C31_ex_regression :
   o_target (download_before_fix 0 abcd xs8 false 3 [Resp 200 false abcd Full]) = Some (abcd ++ [88;88;88;88]) /\
   o_target (download 0 abcd xs8 false 3 [Resp 200 false abcd Full]) = Some abcd.
 Proof. vm_compute. repeat split; reflexivity. Qed.
+
+(* deltas: xdelta3 writes the right content -> accepted without a full download; writes wrong bytes -> removed, full
+   download from the rest of the script; delta download fails -> the pre-existing partial file is resumed *)
+Example C31_ex_delta :
+  let d x := {| d_format_ok := true; d_from_present := true; d_content := [1;2]; d_x := x |} in
+  let dsrv := Resp 200 true [1;2] Full in
+  download_delta 4 abcd None false 3 (d (XWrite abcd)) [dsrv] = {| o_err := ENone; o_target := Some abcd; o_partial := None |} /\
+  download_delta 4 abcd None false 3 (d (XWrite [88;88])) [dsrv; honest] = {| o_err := ENone; o_target := Some abcd; o_partial := None |} /\
+  download_delta 4 abcd None false 3 (d (XWrite [88;88])) [dsrv] = {| o_err := EOther; o_target := None; o_partial := None |} /\
+  download_delta 4 abcd (Some [97;98]) false 1 (d XFail) [Resp 200 true [9;9] Full; honest]
+    = {| o_err := ENone; o_target := Some abcd; o_partial := None |}.
+Proof. vm_compute. repeat split; reflexivity. Qed.
+
+(* cache: failure, then success (fills the cache), then a hit that needs no server at all *)
+Example C31_ex_cache_sequence :
+  let k s := {| k_pre := None; k_partial := None; k_leave := false; k_script := s |} in
+  download_seq None 4 abcd 1 [k [Drop]; k [honest]; k []]
+  = ([{| o_err := EOther; o_target := None; o_partial := None |};
+      {| o_err := ENone; o_target := Some abcd; o_partial := None |};
+      {| o_err := ENone; o_target := Some abcd; o_partial := None |}], Some abcd).
+Proof. vm_compute. reflexivity. Qed.
